@@ -19,12 +19,13 @@ REQUIRED = ["Angle.__init__", "Angle.reduce_deg", "Angle.reduce_dms", "Angle.dms
             "Angle.__rmod__", "Angle.__rpow__"]
 THEOREMS = ["C03_reduce_deg_ideal", "C03_reduction_spec", "C03_construct_ideal", "C03_sexagesimal_ideal", "C03_sexagesimal_canonical_ideal", "C03_operators_more_ideal",
             "C03_operators_ideal", "C03_division_by_zero_ideal", "C03_unary_compare_ideal",
-            "C03_views_ideal", "C03_grid_b64", "C03_reduce_deg_b64", "C03_construct_b64", "C03_to_positive_b64", "C03_set_ra_b64"]
+            "C03_views_ideal", "C03_grid_b64", "C03_reduce_deg_b64", "C03_construct_b64", "C03_to_positive_b64", "C03_set_ra_b64",
+            "C03_addsub_b64", "C03_operators_b64", "C03_division_by_zero_b64"]
 PROOF_TIMEOUT = {"quick": 1500, "thorough": 3000}
 EXHAUSTIVE = False
 MANIFEST = {
     "category": "proof",
-    "text": ("Binary64, EVERY finite float (Flocq bridge): reduce_deg exact (= red360, no rounding), Angle(x) and to_positive in range.  Ideal (real-arithmetic) instance of the regenerated Angle model, for ALL real inputs: reduce_deg = "
+    "text": ("Binary64, EVERY finite float (Flocq bridge): reduce_deg exact (= red360, no rounding), Angle(x), to_positive and set_ra in range; operators + - * / (plain, reflected, in-place) = red360 of the ONE rounded operation, Angle +- Angle congruent to the exact result within 2^-44 deg, overflow raises OverflowError.  Ideal (real-arithmetic) instance of the regenerated Angle model, for ALL real inputs: reduce_deg = "
              "sign(x)(|x| - 360 floor(|x|/360)) (strictly inside (-360,360), sign of x, congruent mod 360); Angle(x) / "
              "radians / ra; sexagesimal: reduce_dms (float pieces) = a transcription of its branches with result shape and the sign of any piece for all real pieces; independent value formula +-(|d|+|m|/60+|s|/3600) reduced proved for CANONICAL pieces only (whole degrees, minutes < 60, seconds < 60), tuple = list = separate arguments, incl. int pieces such as Angle(12,30,15) (canonical pieces); the operators + - * / % ** (restrictions: % for modulus > 0, ** for base > 0) "
              "incl. reflected and in-place = Angle(reduce(a op b)), division by a zero divisor raises ZeroDivisionError; "
@@ -55,7 +56,7 @@ CLAUSES = {
     "tuple/list forms equal separate arguments; 2 pieces = seconds 0; hours = times 15 reduced again":
         "proved [ideal: float pieces, any values (C03_sexagesimal_ideal parts 4-5: conditional on the value r that dms2deg returns, which parts 1-3 and C03_sexagesimal_canonical_ideal supply); int pieces and int+float seconds: canonical pieces (C03_sexagesimal_canonical_ideal)]; B64 grid (float pieces only): bit-identical",
     "binary operators (+ - * / % **), reflected and in-place: result = new Angle(default tolerance) holding red360(a op b)":
-        "proved [ideal, all real a, b / float y / int z: C03_operators_ideal (43 equations) + C03_operators_more_ideal (% by a positive int)].  NOT in a theorem (searched only): % with modulus < 0, ** with base <= 0 or int exponent, reflected ** by an int",
+        "proved [ideal, all real a, b / float y / int z: C03_operators_ideal (43 equations) + C03_operators_more_ideal (% by a positive int)]; proved [B64, EVERY finite float, + - * / incl. reflected and in-place: C03_addsub_b64, C03_operators_b64 - red360(RN(a op b)), overflow -> OverflowError].  NOT in a theorem (searched only): % with modulus < 0, ** with base <= 0 or int exponent, reflected ** by an int",
     "operands unchanged":
         "model: operators are pure functions of immutable values (translator alias analysis, trusted); searched on the implementation with before/after snapshots of both operands for every operator x operand-type x plain/in-place",
     "% follows the documented reading sign(a)*(|a| mod b); number % Angle converts the number to an Angle first (400 % Angle(70) = 40)":
@@ -66,13 +67,14 @@ CLAUSES = {
     "unary -, abs, round(n); comparisons = comparisons of the values, == within the left operand's tolerance": "proved [ideal: C03_unary_compare_ideal (Angle-Angle all six; < > == vs float) + C03_operators_more_ideal (<= >= != vs float)]; comparisons with an int and reflected comparisons: searched",
     "to_positive in [0,360), congruent": "proved [ideal, all stored values in (-360,360): C03_views_ideal]; proved [B64, EVERY finite stored value in (-360,360): C03_to_positive_b64 - result in [0,360), = RN(360+d) (one rounding, error <= 2^-45 deg) or 0.0 when that rounds to 360.0 (only for -2^-45 <= d < 0, e.g. -1e-20)]; grid + searched",
     "rad = deg*pi/180, get_ra = deg/15, float(a) = a()": "proved [ideal: C03_views_ideal]; searched",
-    "binary64 rounding of the arithmetic (1e-9 degree scaled with magnitude) for all floats": "reduce_deg itself: proved exact for every finite float (C03_reduce_deg_b64); to_positive, Angle(x) and set_ra(x): proved for every finite float (C03_to_positive_b64, C03_construct_b64, C03_set_ra_b64: set_ra stores red360(RN(red360(x)*15)), one rounding <= 2^-41 deg); the single rounding of a op b and dms2deg for all floats: unproved (grid + searched)",
+    "binary64 rounding of the arithmetic (1e-9 degree scaled with magnitude) for all floats": "reduce_deg itself: proved exact for every finite float (C03_reduce_deg_b64); to_positive, Angle(x) and set_ra(x): proved for every finite float (C03_to_positive_b64, C03_construct_b64, C03_set_ra_b64: set_ra stores red360(RN(red360(x)*15)), one rounding <= 2^-41 deg); operators + - * / (plain, reflected, in-place; Angle, float and int |z| <= 2^53 operands): proved for EVERY finite float - the result is a new Angle holding exactly red360(RN(a op b)), one IEEE rounding then the exact reduction, strictly inside (-360,360), sign of the rounded result; Angle +- Angle never overflows and is congruent mod 360 to the exact real result within 2^-44 deg < 1e-9 deg (C03_addsub_b64); with scalars the theorem carries the explicit hypothesis that the IEEE operation does not overflow, and when it does overflow the operator raises OverflowError (never stores inf/nan) (C03_operators_b64); zero divisors C03_division_by_zero_b64.  Still grid + searched only in binary64: dms2deg (sexagesimal), %, **, round, comparisons; the relative-error form of the 1e-9 clause for * and / (follows from RN but not stated)",
 }
 
 
 def proof_files(tier):
     return ["C03_defs.v", "C03_tac.v", "C03_reduce.v", "C03_construct.v", "C03_forms.v", "C03_dmsi.v", "C03_dms.v", "C03_dms_int.v", "C03_ops.v",
-            "C03_grid.v", "C03_reduce_b64.v", "C03_b64.v", "C03_ra_b64.v", "C03.v"]
+            "C03_grid.v", "C03_reduce_b64.v", "C03_b64.v", "C03_ra_b64.v",
+            "C03_tacb.v", "C03_opsb_a.v", "C03_ops_b64.v", "C03.v"]
 
 
 # ----------------------------------------------------------------------------------------------
